@@ -377,7 +377,7 @@ def generate(repo, contracts, twin=False, only=None):
     lemmas_path = os.path.join(contracts, "lemmas.rs")
     lemmas = open(lemmas_path).read() if os.path.exists(lemmas_path) else ""
 
-    MODHDR = "#[allow(unused_imports)] use vstd::prelude::*;\n#[allow(unused_imports)] use crate::vp::*;\n#[allow(unused_imports)] use crate::rfc::*;\n#[allow(unused_imports)] use vstd::string::*;\n"
+    MODHDR = "#[allow(unused_imports)] use vstd::prelude::*;\n#[allow(unused_imports)] use crate::vp::*;\n#[allow(unused_imports)] use crate::rfc::*;\n#[allow(unused_imports)] use vstd::string::*;\n#[allow(unused_imports)] use vstd::std_specs::iter::IteratorSpec;\n"
     parts = []
     parts.append("// GENERATED by /verif/vgen/vgen.py from the working tree of /repo -- do not edit\n"
                  "#![allow(unused_imports, dead_code, unused_variables, unused_mut, unused_assignments, unused_parens, unused_braces, non_snake_case, unreachable_code, unused_macros)]\n"
